@@ -24,6 +24,7 @@ LitVal(l) ==
     [] l = "unit" -> U [] l = "tru" -> TT [] l = "fls" -> FF
     [] l = "syma" -> MkSym("a") [] l = "symb" -> MkSym("b") [] l = "symc" -> MkSym("c")
     [] l = "strs" -> [t |-> "str", v |-> <<115>>] [] l = "stre" -> [t |-> "str", v |-> <<>>] [] l = "strab" -> [t |-> "str", v |-> <<97, 98>>]
+    [] l = "byab" -> [t |-> "bytes", v |-> <<97, 98>>] [] l = "bys" -> [t |-> "bytes", v |-> <<115>>]
 IdName(l) == CASE l = "ida" -> "a" [] l = "idb" -> "b" [] l = "idc" -> "c"
 IsId(t) == t.l \in {"ida", "idb", "idc"}
 
